@@ -50,37 +50,90 @@ def run(ctx):
                        ("read_one_for_topic", r1, CTRL), ("read_one_for_topic_shared", rs, CTRL)):
         ctx.saw_fn(nm, rel, len(list(A.walk(f_["body"]))))
     # ---- C22.1 -----------------------------------------------------------------------
-    ms = [n for n in A.walk(fa["body"]) if n.get("k") == "match" and "append_with_retry" in A.text(A.unwrap(n["e"]))]
     F = "NodeController::forward_append"
-    if len(ms) != 1:
-        ctx.anchor_missing("C22.1", "`match self.append_with_retry(..).await` in forward_append")
+    # Every path of forward_append is classified by what append_with_retry returned on it - the arm of a `match`, or
+    # the branch of an `if let Err(..) = ..` / `let Ok(..) = .. else` - and judged: an acknowledged append is counted
+    # exactly once, with 1, before the rollover check, and only such a path answers InternalResp::Ok
+    def _outcome(p):
+        for cn, br in p.conds:
+            scrut = None
+            pat = None
+            if cn.get("k") == "match" and isinstance(br, tuple) and br[0] == "arm":
+                scrut, pat = cn.get("e"), br[2]
+            elif cn.get("k") == "if" and isinstance(cn.get("cond"), dict) and cn["cond"].get("k") == "letcond":
+                scrut, pat = cn["cond"].get("e"), cn["cond"].get("pat")
+                if scrut is not None and "append_with_retry" in A.text(A.unwrap(scrut)) and pat:
+                    pt = pat.replace(" ", "")
+                    if pt.startswith("Err("):
+                        return "err" if br == "then" else "ok"
+                    if pt.startswith("Ok("):
+                        return "ok" if br == "then" else "err"
+                continue
+            elif cn.get("k") == "let" and br in ("let-ok", "let-else"):
+                scrut, pat = cn.get("init"), cn.get("pat")
+                if scrut is not None and "append_with_retry" in A.text(A.unwrap(scrut)) and pat:
+                    pt = pat.replace(" ", "")
+                    if pt.startswith("Ok("):
+                        return "ok" if br == "let-ok" else "err"
+                    if pt.startswith("Err("):
+                        return "err" if br == "let-ok" else "ok"
+                continue
+            if scrut is not None and pat and "append_with_retry" in A.text(A.unwrap(scrut)):
+                pt = pat.replace(" ", "")
+                if pt.startswith("Ok("):
+                    return "ok"
+                if pt.startswith("Err("):
+                    return "err"
+        return None
+    try:
+        fpaths = A.block_paths(fa["body"])
+    except A.TooManyPaths:
+        fpaths = None
+    if fpaths is None:
+        ctx.violate("C22.1", F, "too-many-paths", INTERNAL, fa["line"], "forward_append has too many paths to enumerate: fail closed")
+    elif not any(_outcome(p) for p in fpaths):
+        ctx.anchor_missing("C22.1", "a branch on the result of self.append_with_retry(..).await in forward_append")
     else:
-        okarm, errarm = _arm(ms[0], "Ok("), _arm(ms[0], "Err(")
-        recs_ok = [n for n in A.walk(okarm["body"]) if A.is_mcall(n, "record_append")] if okarm else []
-        recs_err = [n for n in A.walk(errarm["body"]) if A.is_mcall(n, "record_append")] if errarm else []
-        all_recs = [n for n in A.walk(fa["body"]) if A.is_mcall(n, "record_append")]
-        if len(recs_ok) == 1 and len(all_recs) == 1 and not recs_err:
-            r = recs_ok[0]
-            top = okarm["body"]["stmts"] if okarm["body"].get("k") == "block" else []
-            uncond = any(st.get("k") == "expr" and any(x is r for x in A.walk(st["e"])) for st in top)
-            a0 = A.text(r["args"][0]) if r["args"] else ""
-            a1 = r["args"][1].get("int") if len(r["args"]) > 1 else None
-            if uncond and a1 == 1 and re.match(r"^&\w+$", a0):
-                ctx.ok("C22.1", F, "an acknowledged append is recorded exactly once with count 1", INTERNAL, r["line"], "record_append(%s, 1)" % a0)
-            else:
-                ctx.violate("C22.1", F, "append-recorded-with-wrong-count", INTERNAL, r["line"], "the Ok arm records %s (unconditional=%s)" % (A.text(r), uncond))
-            mro = [n for n in A.walk(okarm["body"]) if A.is_mcall(n, "maybe_rollover")]
-            if mro and mro[0]["line"] > r["line"]:
-                ctx.ok("C22.1", F, "the append is counted before the rollover check", INTERNAL, mro[0]["line"])
-            elif mro:
-                ctx.violate("C22.1", F, "rollover-check-before-count", INTERNAL, mro[0]["line"], "maybe_rollover runs before the append is counted: the sealed count misses this entry")
+        bad_cnt = bad_order = bad_ok = bad_err = None
+        n_okp = 0
+        for p in fpaths:
+            oc = _outcome(p)
+            evs = [nd for k_, nd in p.events if isinstance(nd, dict)]
+            recs = [nd for k_, nd in p.events if k_ == "mcall" and A.is_mcall(nd, "record_append")]
+            rolls = [i for i, (k_, nd) in enumerate(p.events) if k_ == "mcall" and A.is_mcall(nd, "maybe_rollover")]
+            reci = [i for i, (k_, nd) in enumerate(p.events) if k_ == "mcall" and A.is_mcall(nd, "record_append")]
+            says_ok = any(nd.get("k") == "path" and nd.get("p") == "InternalResp::Ok" for k_, nd0 in p.events for nd in A.walk(nd0)) if False else None
+            if oc == "ok":
+                n_okp += 1
+                good = len(recs) == 1 and len(recs[0]["args"]) == 2 and recs[0]["args"][1].get("int") == 1 and re.match(r"^&\w+$", A.text(recs[0]["args"][0]))
+                if not good and bad_cnt is None:
+                    bad_cnt = (recs[0]["line"] if recs else fa["line"], [A.text(r_) for r_ in recs])
+                if good and rolls and rolls[0] < reci[0] and bad_order is None:
+                    bad_order = p.events[rolls[0]][1]["line"]
+            elif oc == "err":
+                if recs and bad_err is None:
+                    bad_err = recs[0]["line"]
+        if bad_cnt:
+            ctx.violate("C22.1", F, "acknowledged-append-not-counted-once", INTERNAL, bad_cnt[0], "on a path on which the append succeeded record_append is called as %s (expected exactly one record_append(&key, 1))" % (bad_cnt[1] or "never"))
         else:
-            ctx.violate("C22.1", F, "acknowledged-append-not-counted-once", INTERNAL, ms[0]["line"],
-                        "record_append is called %d time(s) on the Ok arm, %d on the Err arm, %d in total" % (len(recs_ok), len(recs_err), len(all_recs)))
-        oks = [n for n in A.walk(fa["body"]) if n.get("k") == "path" and n["p"] == "InternalResp::Ok"]
-        in_ok = [n for n in A.walk(okarm["body"]) if n.get("k") == "path" and n["p"] == "InternalResp::Ok"] if okarm else []
-        if oks and len(oks) == len(in_ok):
-            ctx.ok("C22.1", F, "InternalResp::Ok is produced only on the Ok arm", INTERNAL, oks[0]["line"])
+            ctx.ok("C22.1", F, "an acknowledged append is recorded exactly once with count 1 (%d path(s))" % n_okp, INTERNAL, fa["line"])
+        if bad_order:
+            ctx.violate("C22.1", F, "rollover-check-before-count", INTERNAL, bad_order, "maybe_rollover runs before the append is counted: the sealed count misses this entry")
+        elif not bad_cnt:
+            ctx.ok("C22.1", F, "the append is counted before the rollover check", INTERNAL, fa["line"])
+        if bad_err:
+            ctx.violate("C22.1", F, "acknowledged-append-not-counted-once", INTERNAL, bad_err, "record_append is called on a path on which the append failed")
+        # InternalResp::Ok only where the append succeeded: every occurrence lies in code that only `ok` paths execute
+        oks = [n for n in A.walk(fa["body"]) if n.get("k") == "path" and n.get("p") == "InternalResp::Ok"]
+        err_lines = set()
+        for p in fpaths:
+            if _outcome(p) == "err":
+                for k_, nd in p.events:
+                    for x in A.walk(nd) if isinstance(nd, dict) else []:
+                        if x.get("k") == "path" and x.get("p") == "InternalResp::Ok":
+                            err_lines.add(x.get("line"))
+        if oks and not err_lines:
+            ctx.ok("C22.1", F, "InternalResp::Ok is produced only where the append succeeded", INTERNAL, oks[0]["line"])
         else:
             ctx.violate("C22.1", F, "ok-response-outside-ok-arm", INTERNAL, fa["line"], "InternalResp::Ok is produced on a path where the append did not succeed")
     # record_append body: *entry += num_entries
@@ -131,7 +184,23 @@ def run(ctx):
             ctx.violate("C22.2", F, "sealed-count-not-the-tracked-count", rel, st["line"],
                         "RolloverTopic{name: %s, sealed_segment_entry_count: %s} is not the tracked count of wal_key(%s, %s)" % (flds.get("name"), cnt_id, topic_id, seg_id))
         # threshold guard: an `if <cnt> < limit { return/continue }` before the proposal
-        guards = [n for n in A.walk(fn["body"]) if n.get("k") == "if" and re.match(r"^%s<" % re.escape(cnt_id or "?"), A.text(n["cond"]))]
+        cid = re.escape(cnt_id or "?")
+        # `if cnt < limit { return }`, `if !(cnt >= limit) { return }`, or the comparison held in a named bool first
+        below = [r"^%s<[^=]" % cid, r"^!\(%s>=.*\)$" % cid]
+        atleast = [r"^%s>=" % cid, r"^!\(%s<[^=].*\)$" % cid]
+        flag_below, flag_atleast = set(), set()
+        for lt_ in A.walk(fn["body"]):
+            if lt_.get("k") == "let" and lt_.get("init") is not None:
+                t_ = A.text(lt_["init"])
+                nm_ = lt_["pat"].replace("mut ", "").strip()
+                if any(re.match(r_, t_) for r_ in below):
+                    flag_below.add(nm_)
+                if any(re.match(r_, t_) for r_ in atleast):
+                    flag_atleast.add(nm_)
+
+        def says_below(c):
+            return any(re.match(r_, c) for r_ in below) or c in flag_below or (c.startswith("!") and c[1:].strip("()") in flag_atleast)
+        guards = [n for n in A.walk(fn["body"]) if n.get("k") == "if" and says_below(A.text(n["cond"]))]
         good = False
         for gd in guards:
             exits = [x for x in A.walk(gd["then"]) if x.get("k") in ("return", "continue")]
